@@ -14,6 +14,7 @@ import (
 	"github.com/milvus-io/milvus/pkg/mq/msgdispatcher"
 	"github.com/milvus-io/milvus/pkg/mq/msgstream"
 
+	"github.com/zilliztech/milvus-cdc/core/api"
 	"github.com/zilliztech/milvus-cdc/core/config"
 )
 
@@ -43,6 +44,23 @@ func verifYieldIfFree(l *deadlock.RWMutex, point string, channel string, collect
 	}
 	mu.Unlock()
 	verifYield(point, channel, collectionID)
+}
+
+// VerifEventQueueCap, when set by a simulation harness, gives the capacity of the API event queue of a channel manager
+// that has not been used yet (the shipped capacity is 10): a tuning knob, varied per simulated run so that behaviour
+// with a full queue is reached with small scenarios.
+var VerifEventQueueCap func() int
+
+func verifTuneManager(r *replicateChannelManager) {
+	f := VerifEventQueueCap
+	if f == nil {
+		return
+	}
+	r.channelLock.Lock()
+	defer r.channelLock.Unlock()
+	if n := f(); n > 0 && n != cap(r.apiEventChan) && len(r.apiEventChan) == 0 && len(r.channelHandlerMap) == 0 {
+		r.apiEventChan = make(chan *api.ReplicateAPIEvent, n)
+	}
 }
 
 // VerifNote, when set, receives non-blocking observations made while repo locks
